@@ -1,4 +1,5 @@
 import J5V.Codec.DecodeProofs
+import J5V.Generated.CodecFacts
 /-!
 # C06 — the decoder is total: no input crashes, hangs or exhausts the stack
 
@@ -80,5 +81,30 @@ def sampleEnv : Env :=
         { jsonName := ascii "flat", path := [8, 1], pres := .imp, field := .scalar .bool }])] }
 
 example : sampleEnv.itemsOk = true := by decide
+
+/-! ## source facts
+Obligations over `J5V.Generated.Codec` (regenerated from /repo's current source by extract/codec.go at
+every check run). Maintained by codec-go; they tie the model's case analysis to the switches in
+the Go source. -/
+section SourceFacts
+open J5V.Generated.Codec
+
+/-- E6: `decodeValue` handles every `PropertyType` constant, `property.PropertyType` maps every
+j5schema field schema type to one of them, and the fall-through arms are errors, not panics. -/
+theorem C06_src_decode_switch_coverage :
+    decodeValueCases = propertyTypeConsts ∧ propertyTypeSwitchResults = propertyTypeConsts ∧
+    propertyTypeSwitchSchemas = fieldSchemaTypes ∧ decodeValueDefaultIsError = true := by decide
+
+/-- every scalar member of the `schema_j5pb.Field` oneof has an arm in `scalarReflectFromGo`
+(the remaining members are the container kinds handled by `decodeValue`) -/
+theorem C06_src_scalar_kinds_covered :
+    (fieldTypeMembers.filter fun m => m ∉ ["Field_Array", "Field_Map", "Field_Object", "Field_Oneof", "Field_Enum"]) =
+      reflectFromGoCases ∧
+    reflectFromGoIntegerFormats = ["INT32", "INT64", "UINT32", "UINT64"] ∧
+    reflectFromGoFloatFormats = ["FLOAT32", "FLOAT64"] := by decide
+
+theorem C06_src_extractor_ok : codecExtractorOk = true := by decide
+
+end SourceFacts
 
 end J5V.Props.C06
